@@ -237,7 +237,21 @@ Definition planner_type (f : aggf) : ltype :=
   | FFirst _ | FLast _ | FCollect _ => TAny
   end.
 
+(** PROPOSED repair proposed-fixes/C11-aggregate-result-types.diff (finding C11-K9): SUM, MIN and MAX
+    results go into a vector of type Any, like COLLECT *)
+Definition planner_type_fix (f : aggf) : ltype :=
+  match f with
+  | FCountStar | FCount _ => TInt
+  | FAvg _ => TFloat
+  | _ => TAny
+  end.
+
 (** * specification vocabulary *)
+(** values a SUM / AVG column may hold inside the model's domain *)
+Definition sum_dom (v : value) : bool :=
+  match v with VFloat _ => false | VStr s => negb (numeric_like s) | _ => true end.
+(** the rows of group [k] *)
+Definition keyeqb (gcols : list nat) (k : rowkey) (r : row) : bool := rowkey_eqb (group_key gcols r) k.
 Definition col_vals (c : nat) (rows : list row) : list value :=
   flat_map (fun r => match nth_error r c with None | Some VNull => [] | Some v => [v] end) rows.
 Definition val_int (v : value) : option Z := match v with VInt i => Some i | _ => None end.
